@@ -692,13 +692,45 @@ def run_unit(u, scratch, repo=None):
             hint_lines.add(ln)
         if "/*@hint-end*/" in l:
             inside = False
-    errors = []
-    for m in re.finditer(r"^error(?:\[[A-Z0-9]+\])?: ([^\n]*)\n\s*--> [^\n:]*:(\d+):(\d+)", stderr, re.M):
-        msg, line = m.group(1), int(m.group(2))
-        if msg.startswith("aborting due to"):
+    def parse_errors(err_text):
+        out = []
+        for m in re.finditer(r"^error(?:\[[A-Z0-9]+\])?: ([^\n]*)\n\s*--> [^\n:]*:(\d+):(\d+)", err_text, re.M):
+            msg, line = m.group(1), int(m.group(2))
+            if msg.startswith("aborting due to"):
+                continue
+            out.append({"msg": msg, "gen_line": line, "fn": enclosing(line), "src": src_of(line), "in_hint": line in hint_lines,
+                        "text": text.split("\n")[line - 1].strip()[:200] if line - 1 < len(text.split("\n")) else ""})
+        return out
+
+    errors = parse_errors(stderr)
+    # A function that exhausts the default resource limit is re-run alone with a 30x limit: a false obligation usually makes
+    # Z3 search until the limit, and the larger budget turns that into a definite "postcondition not satisfied" (or a pass).
+    retried = {}
+    for fn_name in sorted({e["fn"] for e in errors if "Resource limit" in e["msg"] and e["fn"] != "?"}):
+        cmd2 = ["verus", gen, "--output-json", "--multiple-errors", "30", "--rlimit", "300", "--verify-root",
+                "--verify-function", fn_name]
+        try:
+            p2 = subprocess.run(cmd2, cwd=scratch, capture_output=True, text=True, timeout=900)
+        except subprocess.TimeoutExpired:
+            retried[fn_name] = "timeout"
             continue
-        errors.append({"msg": msg, "gen_line": line, "fn": enclosing(line), "src": src_of(line), "in_hint": line in hint_lines,
-                       "text": text.split("\n")[line - 1].strip()[:200] if line - 1 < len(text.split("\n")) else ""})
+        try:
+            d2 = json.loads(p2.stdout[p2.stdout.index("{"):]).get("verification-results", {})
+        except Exception:
+            retried[fn_name] = "no json"
+            continue
+        e2 = [e for e in parse_errors(p2.stderr) if e["fn"] == fn_name]
+        if d2.get("errors", 0) == 0 and d2.get("verified", 0) >= 1 and not d2.get("encountered-vir-error"):
+            errors = [e for e in errors if not (e["fn"] == fn_name and "Resource limit" in e["msg"])]
+            retried[fn_name] = "verified with rlimit 300"
+            vr = dict(vr)
+            vr["errors"] = vr.get("errors", 0) - 1
+            vr["verified"] = vr.get("verified", 0) + 1
+        elif e2 and not any("Resource limit" in e["msg"] for e in e2):
+            errors = [e for e in errors if not (e["fn"] == fn_name and "Resource limit" in e["msg"])] + e2
+            retried[fn_name] = "definite result with rlimit 300: %d error(s)" % len(e2)
+        else:
+            retried[fn_name] = "still undecided with rlimit 300"
     # canaries
     canary_names = {n for _, _, n in ranges if n.startswith("canary_")} | set(u.expect_fail)
     failed_canaries = {e["fn"] for e in errors if e["fn"] in canary_names}
@@ -716,7 +748,7 @@ def run_unit(u, scratch, repo=None):
         "canaries": {"expected_to_fail": sorted(canary_names), "failed": sorted(failed_canaries)},
         "assumed": scan_assumed(text), "imports": u.imports,
         "samples": [{"engine": "verus", "function": f["function"], "mode": f["mode"], "rlimit": f["rlimit"]} for f in funcs[:3]],
-        "output_tail": stderr[-3000:],
+        "output_tail": stderr[-3000:], "rlimit_retries": retried,
     }
     if not canaries_ok:
         res["status"] = "undecided"
